@@ -41,7 +41,8 @@ pub fn builtin_clamp(x: f64, minVal: f64, maxVal: f64) -> f64 {
 
 #[builtin]
 pub fn builtin_sum(arr: Vec<f64>) -> f64 {
-	arr.iter().sum()
+	// `Iterator::sum::<f64>()` starts from -0.0: std.sum([]) must be 0, as foldl(+, arr, 0) is
+	arr.iter().fold(0.0, |a, b| a + b)
 }
 
 #[builtin]
